@@ -56,9 +56,9 @@ class CM:
         return a.posonlyargs + a.args + a.kwonlyargs
 
 
-def client_methods(lib: Lib, is_async: bool, transport=("grpc", "rest"), want2=False) -> Iterator[CM]:
+def client_methods(lib: Lib, is_async: bool, transport=("grpc", "rest"), want2=False, forced=None) -> Iterator[CM]:
     t = ASYNC_T if is_async else CLIENT_T
-    for sk in lib.variants(t, transport=transport, want2=want2):
+    for sk in lib.variants(t, transport=transport, want2=want2, forced=forced):
         for n in ast.walk(sk.tree()):
             if isinstance(n, (ast.FunctionDef, ast.AsyncFunctionDef)) and NAME_RE.match(Dn(sk, n.name)):
                 yield CM(sk, n, is_async, lib.root)
